@@ -30,10 +30,23 @@ PROFILES = {
     "map": dict(ops=["put", "touch", "remove", "removeif", "ensure", "copy", "move", "ecopy", "emove", "fromraw", "clear", "markro"],
                 smin=1, smax=4, preds=["ideven", "idodd", "all"], keys=[1, 2, 3], caps=[4], rawlens=[0, 2], rawshape=1,
                 maxlen=3, maxkids=2, zerotouch=False, initlens=[0, 2, 3]),
+    # uniform container shapes: every value is a map / a slice / a byte slice, so that a destination slot and the
+    # source element copied into it have the same one-of alternative (the case in which Value.CopyTo re-uses the
+    # destination's wrapper)
+    "anyslice_maps": dict(kind="anyslice", base="anyslice", smin=2, smax=2),
+    "anyslice_bytes": dict(kind="anyslice", base="anyslice", smin=4, smax=4),
+    "map_maps": dict(kind="map", base="map", smin=2, smax=2),
+    "map_slices": dict(kind="map", base="map", smin=3, smax=3),
     "prim": dict(ops=["append", "touch", "ensure", "copy", "move", "fromraw", "markro"],
                  smin=0, smax=0, preds=[], keys=[], caps=[4, 8], rawlens=[0, 2], rawshape=0,
                  maxlen=4, maxkids=0, zerotouch=True, initlens=[0, 2, 3]),
 }
+
+
+for _n, _p in list(PROFILES.items()):
+    if "base" in _p:
+        PROFILES[_n] = dict(PROFILES[_p["base"]], **_p)
+    PROFILES[_n].setdefault("kind", _n)
 
 
 def tla_set(xs, quote=False):
@@ -143,10 +156,13 @@ def run(c):
 
     # ------------------------------------------------------------------ 2. model of the pinned CopyTo
     pinned = (("ptr_slots", "ptrslice", True, False, True, 0, 1), ("ptr_unset", "ptrslice", True, True, False, 0, 1),
-              ("val_slots", "valslice", False, False, True, 1, 2), ("any_slots", "anyslice", False, False, True, 1, 2),
-              ("map_slots", "map", False, False, True, 1, 2))
+              ("val_slots", "valslice", False, False, True, 1, 2), ("any_slots", "anyslice_maps", False, False, True, 2, 2),
+              ("map_slots", "map_maps", False, False, True, 2, 2))
+    # (searched over the operations that matter for stale slots: a model of the pinned code may use any subset)
+    focus = ["touch", "removeif", "remove", "ensure", "copy", "ecopy"]
     for name, prof, ptr, fs, fu, smin, smax in pinned:
-        job(("pinned", name), "PDataImplMC", cfg_text=impl_cfg(PROFILES[prof], ptr, fs, fu, 3, smin, smax), timeout=1500,
+        pp = dict(PROFILES[prof], ops=[o for o in PROFILES[prof]["ops"] if o in focus], initlens=[0, 2, 3] if ptr else [2])
+        job(("pinned", name), "PDataImplMC", cfg_text=impl_cfg(pp, ptr, fs, fu, 3, smin, smax), timeout=1500,
             workers=4, extra_args=["-dumpTrace", "json", os.path.join(c.work, "cex_%s.json" % name)])
 
     # ------------------------------------------------------------------ 3. program generators
@@ -154,18 +170,29 @@ def run(c):
         for prof in PROFILES:
             p = PROFILES[prof]
             # bounded exhaustive: every program of exactly N operations from every initial content
-            nbfs = (1 if q else 2)
-            job(("gen", prof, "bfs%d" % nbfs), "PDataGen", cfg_text=gen_cfg(p, 2, nbfs), workers=1, heap="4g", deadlock=False)
-            # seeded random deeper programs over three variables
-            nsim, depth = ((400, 4) if q else (4000, 5))
-            if prof == "ptrslice":
-                nsim = nsim * 2
-            job(("gen", prof, "sim"), "PDataGen", cfg_text=gen_cfg(p, 3, depth), workers=1, heap="4g", deadlock=False,
-                simulate="num=%d" % nsim, depth=depth + 3, seed=c.seed)
+            variant = "base" in p
+            # bounded exhaustive: every program of exactly 2 operations (+ final touchall) from every initial content
+            pq = dict(p, smax=min(p["smax"], 3)) if (q and prof == "map") else p
+            job(("gen", prof, "bfs2"), "PDataGen", cfg_text=gen_cfg(pq, 2, 2), workers=1, heap="4g", deadlock=False)
+            if variant and q:
+                continue
+            if not q:
+                job(("gen", prof, "bfs1"), "PDataGen", cfg_text=gen_cfg(p, 2, 1), workers=1, heap="4g", deadlock=False)
+                if prof == "prim":   # small alphabet: every program of 3 operations as well
+                    job(("gen", prof, "bfs3"), "PDataGen", cfg_text=gen_cfg(p, 2, 3), workers=1, heap="6g", deadlock=False)
+            # seeded random deeper programs (quick: 4 operations over two variables; thorough: 5 over three, several seeds)
+            if q:
+                job(("gen", prof, "sim"), "PDataGen", cfg_text=gen_cfg(p, 2, 4), workers=1, heap="4g", deadlock=False,
+                    simulate="num=300", depth=7, seed=c.seed)
+            else:
+                nseeds = 4 if prof == "ptrslice" else (1 if variant else 2)
+                for k in range(nseeds):
+                    job(("gen", prof, "sim%d" % k), "PDataGen", cfg_text=gen_cfg(p, 3, 5), workers=1, heap="4g", deadlock=False,
+                        simulate="num=3000", depth=8, seed=c.seed * 100 + k)
 
     results = {}
     errors = []
-    sem = threading.Semaphore(5)
+    sem = threading.Semaphore(6)
 
     def runjob(key, module, kw):
         with sem:
@@ -232,6 +259,7 @@ def run(c):
             if r.timed_out or r.error or not r.printed:
                 raise vlib.Inconclusive("generator %s failed: %s %s" % (key, r.error, r.out[-800:]))
             plan.append((key[1], key[2], r.printed, None))
+        plan.sort(key=lambda x: (list(PROFILES).index(x[0]), x[1]))
         for prof, behs in model_cex.items():
             plan.append((prof, "pinned-model", behs, None))
 
@@ -248,22 +276,28 @@ def run(c):
             for b in behs:
                 fh.write(json.dumps(b, separators=(",", ":")) + "\n")
         pj = os.path.join(c.work, "prof_%s_%s.json" % (prof, name))
-        cfg = {"profile": prof}
+        kind = PROFILES[prof]["kind"]
+        cfg = {"profile": kind}
         if only_type:
             cfg["types"] = "^" + re.escape(only_type) + "$"
+        # quick tier: the two-operation programs are dealt round-robin over the types of a profile (every program
+        # runs on every 2nd type, every type sees every 2nd program); thorough: every program on every type
+        stride = 2 if (q and name == "bfs2" and len(types_by_profile.get(kind, [])) >= 4) else 1
+        cfg["stride"], cfg["offset"] = stride, c.seed
         json.dump(cfg, open(pj, "w"))
         out = os.path.join(c.work, "res_%s_%s.json" % (prof, name))
         c.run([binp, "run", pj, f, out], timeout=3000)
         res = json.load(open(out))
         if res["behaviours"] != len(behs):
             raise vlib.Inconclusive("driver read %d of %d behaviours" % (res["behaviours"], len(behs)))
-        want_types = [only_type] if only_type else types_by_profile.get(prof, [])
+        want_types = [only_type] if only_type else types_by_profile.get(kind, [])
         if sorted(res["types"].keys()) != sorted(want_types):
             raise vlib.Inconclusive("driver ran types %s, expected %s" % (sorted(res["types"].keys()), sorted(want_types)))
         bad = 0
-        for tname, tr in sorted(res["types"].items()):
-            if tr["programs"] != len(behs):
-                raise vlib.Inconclusive("driver ran %d of %d programs on %s" % (tr["programs"], len(behs), tname))
+        for ti, (tname, tr) in enumerate(sorted(res["types"].items())):
+            expect = sum(1 for bi in range(len(behs)) if (bi + ti + c.seed) % stride == 0)
+            if tr["programs"] != expect:
+                raise vlib.Inconclusive("driver ran %d of %d programs on %s" % (tr["programs"], expect, tname))
             total_pairs += tr["programs"] - tr["mismatched_programs"]
             total_steps += tr["compared"]
             ro_attempts += tr["readonly_mutators_attempted"]
@@ -280,8 +314,8 @@ def run(c):
         pp = per_profile.setdefault(prof, dict(programs=0, types=len(want_types), mismatched_pairs=0))
         pp["programs"] += len(behs)
         pp["mismatched_pairs"] += bad
-        c.log("%-9s %-12s %6d programs x %2d types: %d mismatching (program,type) pairs" % (prof, name, len(behs), len(want_types), bad))
-        if name.startswith("bfs") or name == "sim":
+        c.log("%-14s %-12s %6d programs x %2d types: %d mismatching (program,type) pairs" % (prof, name, len(behs), len(want_types), bad))
+        if name == "bfs2" or name.startswith("sim"):
             if len(c.samples) < 4:
                 b = behs[len(behs) // 2]
                 c.sample(dict(kind="replayed program (%s, %s)" % (prof, name), program=fmt_prog(b, len(b) - 1),
@@ -298,7 +332,7 @@ def run(c):
 
     c.traces_validated += total_pairs
     c.evaluations = total_steps
-    c.exhaustive = not c.replay
+    c.exhaustive = (not c.replay) and (not q)   # quick deals the 2-operation programs over the types (every 2nd type)
     c.extra["per_profile"] = per_profile
     c.extra["readonly_mutators_attempted"] = ro_attempts
     c.assumptions += [
@@ -308,7 +342,10 @@ def run(c):
         "capacity growth of Go append is not specified; PDataImpl uses deterministic doubling",
         "non-element message types (Resource, InstrumentationScope, Status ...) are exercised only as parts of elements",
     ]
-    c.finish_args = dict(rule="programs of the stated number of operations over 2 variables from every initial content with lengths in "
-                              "{0,2,3} enumerated by TLC (BFS), plus seeded TLC simulation over 3 variables; every program is applied "
-                              "to every container type of its kind profile; non-trivial = at least 2 different operations",
+    c.finish_args = dict(rule="every program of exactly 2 operations (thorough: also 1; 3 for primitive slices) over 2 variables from "
+                              "every initial content with lengths in {0,2,3}, enumerated by TLC (BFS) and closed by a touch-everything "
+                              "step, plus seeded TLC simulation (quick: 4 operations / 2 variables, thorough: 5 / 3) and the "
+                              "counterexamples of the pinned-CopyTo model; thorough applies every program to every container type "
+                              "of its kind profile, quick deals the 2-operation programs over every 2nd type; "
+                              "non-trivial = at least 2 different operations",
                          distinct_nontrivial=nontrivial)
